@@ -40,6 +40,12 @@ ASSUMPTIONS = [
     "span test for random cases against a harness reference basis (two-pass re-orthogonalised Arnoldi, complex128) "
     "for the leading Krylov spaces that are well defined in the working precision",
     "start vectors are non-zero; v and A have the same dtype; use_householder=False (the default)",
+    "two buffer layouts are admitted (LoopControl!ArnoldiBufCaps): Q n x (mb+1), H (mb+1) x mb with mb = requested "
+    "max_iters (pinned snapshot) or mb = min(max_iters, n) (tree with fix d8e8e76); everything else is strict: for "
+    "max_iters > n the leading part must equal the n-step run and nothing may follow it but zeros",
+    "a loss of orthogonality in the leading columns is labelled onset=mgs only if the harness' own single-pass "
+    "modified Gram-Schmidt Arnoldi (the documented mechanism) in the same precision loses orthogonality to the same "
+    "order (within 100x); otherwise onset=other",
 ]
 _REC = None
 
